@@ -5,9 +5,9 @@
 #include "tp/tp_common.h"
 
 enum { O_END = 0, O_CREATE, O_TCREATE0, O_TCREATE1, O_ATTACH, O_INFL_MSG, O_INFL_READ, O_INFL_TIMER,
-       O_SHUT, O_SHUT_B, O_SHUT_W, O_WAIT, O_DESTROY, O_QUIESCE };
+       O_SHUT, O_SHUT_B, O_SHUT_W, O_WAIT, O_DESTROY, O_QUIESCE, O_INFL_BUSY, O_GATE_B };
 static const char *opname[] = { "end", "create", "threads_create(0)", "threads_create(skip_first)", "attach_first", "inflight:msg",
-       "inflight:read-event", "inflight:timer", "shutdown", "shutdown(concurrent thread B)", "shutdown(from worker)", "shutdown_wait", "destroy", "quiesce" };
+       "inflight:read-event", "inflight:timer", "shutdown", "shutdown(concurrent thread B)", "shutdown(from worker)", "shutdown_wait", "destroy", "quiesce", "inflight:busy-callback", "open-gate(thread G)" };
 
 #define MAXOPS 12
 typedef struct lvar_s {
@@ -52,6 +52,25 @@ shut_w_cb(tpt_p tpt, void *udata) {
 	tpc_add(E_CB_BEGIN, (int)tpt_get_num(tpt), 777, 0, 0);
 	tp_shutdown(tpt_get_tp(tpt));
 	tpc_add(E_CB_END, (int)tpt_get_num(tpt), 777, 0, 0);
+}
+
+static volatile int busy_gate = 0;
+static pthread_t thr_g;
+static int have_g = 0;
+
+static void
+busy_cb(tpt_p tpt, void *udata) {
+	tpc_add(E_CB_BEGIN, (int)tpt_get_num(tpt), (long)(intptr_t)udata, 0, 0);
+	sc_gate_wait(&busy_gate, "busy-callback");	/* the callback is "working" until thread G lets it go */
+	tpc_add(E_CB_END, (int)tpt_get_num(tpt), (long)(intptr_t)udata, 0, 0);
+}
+
+static void *
+gate_thread(void *arg) {
+	(void)arg;
+	busy_gate = 1;
+	sc_log("G: gate opened");
+	return (NULL);
 }
 
 static void *
@@ -172,11 +191,24 @@ life_scenario(int idx) {
 		case O_QUIESCE:
 			sc_wait_quiescent();
 			break;
+		case O_INFL_BUSY:
+			busy_gate = 0;
+			rc = tpt_msg_send(target_thread(), NULL, 0, busy_cb, (void *)(intptr_t)6);
+			sc_log("inflight busy msg rc=%d", rc);
+			break;
+		case O_GATE_B:
+			pthread_create(&thr_g, NULL, gate_thread, NULL);
+			have_g = 1;
+			break;
 		}
 	}
 	if (have_b)
 		pthread_join(thr_b, NULL);
+	if (have_g)
+		pthread_join(thr_g, NULL);
 	sc_wait_quiescent();	/* anything that still wants to run (late callbacks!) runs now */
+	if (tpc_count(E_CB_BEGIN, -1, 6) != tpc_count(E_CB_END, -1, 6))
+		sc_fail("callback-cut-short", "the pool was torn down while a message callback was still running");
 
 	/* hooks: exactly once per thread that ran, the virtual thread included */
 	if (created) {
